@@ -194,8 +194,11 @@ def run(ctx):
              (limit_not_enforced, "over-limit body returned in buffered mode", 400),
              (unanswered_request, "a response returned although the peer never replied", 20),
              (stale_bytes_left, "unread bytes left on a connection that is kept for reuse", 60)]
-    for fn, name, nc in tests:
-        lib.self_test(ctx, TRACE[0], TRACE[1], big, fn, name=name, ncases=nc)
+    # (the self-tests prove that a clean run is not vacuous; when the run has already produced violations the traces no
+    # longer have the shape the corruptions look for, and the verdict is exit 1 anyway)
+    if not ctx.violations:
+        for fn, name, nc in tests:
+            lib.self_test(ctx, TRACE[0], TRACE[1], big, fn, name=name, ncases=nc)
 
     # 7. evidence
     progs, scripts, exch, multi, nontriv = set(), set(), 0, 0, 0
